@@ -350,6 +350,10 @@ pub struct NetWorld {
     pub traffic: Vec<(usize, usize, String)>,
 }
 
+/// prefix of traffic-log entries that are reply lines on an incoming connection (acks, ok, results),
+/// as opposed to requests a node sends on its own outgoing link
+pub const REPLY_MARK: &str = "<- ";
+
 pub fn node_name(i: usize) -> String {
     format!("n{}:1", i + 1)
 }
@@ -583,7 +587,8 @@ impl NetWorld {
                         // what the handler wrote goes back over the same connection
                         for line in m.split('\n') {
                             if !line.trim().is_empty() {
-                                self.traffic.push((t, f, line.trim().to_string()));
+                                // REPLY_MARK: written back on the connection the command came in on
+                                self.traffic.push((t, f, format!("{}{}", REPLY_MARK, line.trim())));
                                 self.links[li].back.push_back(line.trim().to_string());
                             }
                         }
